@@ -433,6 +433,62 @@ def dumps_across_endian_switches(ctx):
                     ctx.event("dumps_across_switches_checked")
 
 
+def namesakes_and_zero_ended_arrays(ctx):
+    """(a) Two enums (or flags) that merely share a name -- the same text loaded into two cstruct objects, other members
+    under the same name, two anonymous enums of one object -- are different enums: their members never compare equal,
+    whatever their values, and a parse of one is never equal to a member of the other.
+    (b) A null-terminated array of enum / flag values writes every entry it is given and then the terminator, also when
+    the last entry is a zero-valued member, `E(0)` or a plain 0."""
+    for compiled in (True, False):
+        for kw in ("enum", "flag"):
+            ctx.evaluation(("namesakes", compiled, kw))
+            ctx.cell("namesake-enums")
+            det = {"compiled": compiled, "kind": kw, "workload": "namesakes"}
+            try:
+                a = lib.load(f"{kw} Kind : uint16 {{ RED = 1, BLUE = 2 }};\n{kw} : uint16 {{ ALPHA = 4 }};\n{kw} : uint16 {{ OMEGA = 4 }};", "<", False, compiled)
+                b = lib.load(f"{kw} Kind : uint16 {{ CIRCLE = 1, SQUARE = 2 }};", "<", False, compiled)
+                c = lib.load(f"{kw} Kind : uint16 {{ RED = 1, BLUE = 2 }};", "<", False, compiled)
+                pa, pb = a.Kind(b"\x01\x00"), b.Kind(b"\x01\x00")
+                facts = {
+                    "other members, same name": (a.Kind.RED == b.Kind.CIRCLE, a.Kind.RED != b.Kind.CIRCLE),
+                    "same text, other object": (a.Kind.RED == c.Kind.RED, a.Kind.BLUE != c.Kind.BLUE),
+                    "parsed values": (pa == pb, pa == b.Kind.CIRCLE, pa == a.Kind.RED, pa == 1),
+                    "anonymous": (a.ALPHA == a.OMEGA, a.ALPHA != a.OMEGA, a.ALPHA == 4),
+                    "in a set": len({a.Kind.RED, b.Kind.CIRCLE, c.Kind.RED}),
+                }
+                want = {"other members, same name": (False, True), "same text, other object": (False, True),
+                        "parsed values": (False, False, True, True), "anonymous": (False, True, True), "in a set": 3}
+            except Exception as e:  # noqa: BLE001
+                ctx.violation("equality", f"namesake-enums-raise:{type(e).__name__}", dict(det, error=lib.exc_sig(e)))
+                continue
+            bad = {k: (facts[k], want[k]) for k in want if facts[k] != want[k]}
+            if bad:
+                ctx.violation("equality", "members-of-different-enums-with-the-same-name-compare-equal", dict(det, differing=repr(bad)))
+            else:
+                ctx.event("namesakes_checked")
+            for endian in "<>":
+                bo = "little" if endian == "<" else "big"
+                ctx.evaluation(("zero-ended", compiled, kw, endian))
+                ctx.cell("zero-ended-null-terminated-arrays")
+                try:
+                    cs = lib.load(f"{kw} Op : uint16 {{ NOP = 0, PUSH = 1, POP = 2 }};\nstruct prog {{ uint8 n; Op code[]; uint8 t; }};", endian, False, compiled)
+                    E = cs.Op
+                    problems = []
+                    for lst in ([E.PUSH, E.NOP], [E.PUSH, E(0)], [E.POP, 0], [E.NOP], [], [E.PUSH, E.NOP, E.POP], [1, 2]):
+                        ints = [int(getattr(x, "value", x)) for x in lst]
+                        want_b = b"".join(v.to_bytes(2, bo) for v in ints) + b"\x00\x00"
+                        got = (E[None].dumps(list(lst)), cs.prog(n=9, code=list(lst), t=0xEE).dumps())
+                        if got != (want_b, b"\x09" + want_b + b"\xEE"):
+                            problems.append((repr(lst), got[0].hex(), got[1].hex(), want_b.hex()))
+                except Exception as e:  # noqa: BLE001
+                    ctx.violation("dump", f"zero-ended-array-raises:{type(e).__name__}", dict(det, endian=endian, error=lib.exc_sig(e)))
+                    continue
+                if problems:
+                    ctx.violation("dump", "null-terminated-enum-array-not-written-as-entries-plus-terminator", dict(det, endian=endian, problems=repr(problems)[:600]))
+                else:
+                    ctx.event("zero_ended_arrays_checked")
+
+
 def run(ctx):
     rng = ctx.rng("decls")
     if ctx.shard == 4:
@@ -441,6 +497,8 @@ def run(ctx):
         enum_over_enum(ctx)
     if ctx.shard == 3:
         property_named_members(ctx)
+    if ctx.shard == 5:
+        namesakes_and_zero_ended_arrays(ctx)
     if ctx.shard == 1:
         anonymous_constants(ctx, ctx.rng("anonymous-constants"), 30 if not ctx.thorough else 400)
     if ctx.shard == 0:
@@ -466,6 +524,7 @@ def replay(ctx, detail):
         enum_over_enum(ctx)
         property_named_members(ctx)
         dumps_across_endian_switches(ctx)
+        namesakes_and_zero_ended_arrays(ctx)
         return
     cs = lib.load(detail["text"], detail["cfg"]["endian"], False, detail["cfg"]["compiled"])
     print({n: t for n, t in cs.typedefs.items() if isinstance(t, type) and issubclass(t, _enum.Enum)})
